@@ -19,6 +19,8 @@ type SkelOptions struct {
 	NestedLookahead bool
 	// TrailingNull always includes the statement form that ends with a nullable nonterminal.
 	TrailingNull bool
+	// TrailingNullMarker puts a state marker behind that nullable nonterminal (otherwise two times in three).
+	TrailingNullMarker bool
 	// NoErr generates no error alternatives at all.
 	NoErr bool
 }
@@ -47,6 +49,7 @@ func RandSkeleton(r *rand.Rand, o SkelOptions) *Grammar {
 	expr := exprs[0]
 
 	perr := func(p int) bool { return !o.NoErr && r.Intn(p) == 0 }
+	needItemNode := false
 
 	// File / Items
 	itemsNullable := true
@@ -143,9 +146,19 @@ func RandSkeleton(r *rand.Rand, o SkelOptions) *Grammar {
 		b.rule(tail)
 		ru := b.rule(item, b.word(), id, b.nt(tail))
 		b.feature("trailing-nullable")
-		if r.Intn(3) > 0 { // ... followed by a state marker
+		if r.Intn(3) > 0 || o.TrailingNullMarker { // ... followed by a state marker
 			ru.Deco = map[int]string{3: ".afterEnd"}
 			b.feature("trailing-nullable+marker")
+		}
+		if r.Intn(3) > 0 || o.TrailingNullMarker {
+			// a look-alike sibling: same nonterminal, length, node and no actions, but ending with a token.
+			// State minimisation may merge reductions of interchangeable rules; these two are not
+			// interchangeable when trailing whitespace is trimmed per rule.
+			ru.Plain = true
+			sib := b.rule(item, b.word(), id, semi)
+			sib.Plain = true
+			b.feature("trailing-nullable+lookalike-sibling")
+			needItemNode = true
 		}
 	}
 	if !o.TrailingNull {
@@ -281,6 +294,9 @@ func RandSkeleton(r *rand.Rand, o SkelOptions) *Grammar {
 	b.annotate(0.7, 0.3, 0.15)
 	if b.g.NTArrow[file] == "" {
 		b.g.NTArrow[file] = "File"
+	}
+	if needItemNode && b.g.NTArrow[item] == "" {
+		b.g.NTArrow[item] = "Item"
 	}
 	return b.g
 }
